@@ -5,10 +5,12 @@
    adjoints, proximals, gradients and projections are universally quantified
    FUNCTIONS list R -> list R (no linearity, no shape hypothesis), vectors are
    lists of any length, iteration counts are arbitrary naturals. *)
-From Coq Require Import Reals List Bool.
+From Coq Require Import Reals List Bool String.
 From Verif Require Import Base.Num Base.Vec Base.VecR C11.Model C11.Proofs.
+From Verif Require Import C11.Syntax C11.Interp Gen.Solvers C11.GenProofs.
 Import ListNotations.
 Local Open Scope R_scope.
+Notation length := List.length.
 
 (* ====================== 1. optimised solver = reference, iterate by iterate *)
 
@@ -191,6 +193,143 @@ Theorem callback_steepest_descent :
        = fst (iter (S k) (sd_step grad proj step tol) (x, false)).
 Proof. exact sd_callbacks. Qed.
 Print Assumptions callback_steepest_descent.
+
+(* =========== 4. the programs REGENERATED from the source (Gen/Solvers.v) ===========
+   [run_prog I pre body n s0]: the heap-level interpreter (C11/Interp.v) runs the
+   translated preamble and n times the translated loop body; names are bound to
+   objects, "caller.x" is the caller's reference to the object passed as x.
+   [mk_I scalars functions functions2 zeros junk] interprets the operator symbols
+   found in the source; junk gives the content of every uninitialised buffer. *)
+Local Open Scope string_scope.
+
+(* the two generated ADMM programs: same callback log (one entry per iteration),
+   same final content of the caller's x *)
+Theorem gen_admm_linearized_equals_simple :
+  forall (L Ladj proxf proxg : list R -> list R) (tau sigma : R) (m : nat) (junk : string -> list R)
+         (niter : nat) (x : list R),
+  let I := mk_I [("tau", tau); ("sigma", sigma)]
+                [("L", L); ("L.adjoint", Ladj); ("f.proximal(tau)", proxf); ("g.proximal(sigma)", proxg)]
+                [] [("L.range", vzero m)] junk in
+  let s0 := mk_hst [("x", 0%nat); ("caller.x", 0%nat)] [x] [] in
+  exists so sr,
+    run_prog I admm_linearized_pre admm_linearized_body niter s0 = Some so
+    /\ run_prog I admm_linearized_simple_pre admm_linearized_simple_body niter s0 = Some sr
+    /\ h_log so = h_log sr /\ length (h_log so) = niter
+    /\ deref so "caller.x" = deref sr "caller.x".
+Proof. exact gen_admm_equiv. Qed.
+Print Assumptions gen_admm_linearized_equals_simple.
+
+(* ... and the generated optimised program computes the model of C11/Model.v *)
+Theorem gen_admm_linearized_is_model :
+  forall (L Ladj proxf proxg : list R -> list R) (tau sigma : R) (m : nat) (junk : string -> list R)
+         (niter : nat) (x : list R),
+  run_prog (admm_I L Ladj proxf proxg tau sigma m junk) admm_linearized_pre admm_linearized_body niter
+           (mk_hst env_x [x] [])
+  = Some (mk_hst admm_opt_env
+            (admm_opt_enc (iter niter (admm_opt_step L Ladj proxf proxg tau sigma) (admm_opt_init L m (junk "tmp_dom") x)))
+            (admm_opt_trace L Ladj proxf proxg tau sigma m niter (junk "tmp_dom") x)).
+Proof. exact gen_admm_opt_run. Qed.
+Print Assumptions gen_admm_linearized_is_model.
+
+Theorem gen_doubleprox_dc_equals_simple :
+  forall (K Kadj proxf proxgc gradphi : list R -> list R) (gamma mu : R) (junk : string -> list R)
+         (niter : nat) (x y : list R),
+  let I := mk_I [("gamma", gamma); ("mu", mu)]
+                [("K", K); ("K.adjoint", Kadj); ("f.proximal(gamma)", proxf);
+                 ("g.convex_conj.proximal(mu)", proxgc); ("phi.gradient", gradphi)] [] [] junk in
+  let s0 := mk_hst [("x", 0%nat); ("caller.x", 0%nat); ("y", 1%nat); ("caller.y", 1%nat)] [x; y] [] in
+  exists so sr,
+    run_prog I doubleprox_dc_pre doubleprox_dc_body niter s0 = Some so
+    /\ run_prog I doubleprox_dc_simple_pre doubleprox_dc_simple_body niter s0 = Some sr
+    /\ deref so "caller.x" = deref sr "caller.x" /\ deref so "caller.y" = deref sr "caller.y"
+    /\ length (h_log so) = niter.
+Proof. exact gen_dpdc_equiv. Qed.
+Print Assumptions gen_doubleprox_dc_equals_simple.
+
+(* resumption through the caller's objects, generated doubleprox_dc *)
+Theorem gen_doubleprox_dc_resume :
+  forall (K Kadj proxf proxgc gradphi : list R -> list R) (gamma mu : R) (junk : string -> list R)
+         (n m : nat) (x y : list R),
+  let I := dpdc_I K Kadj proxf proxgc gradphi gamma mu junk in
+  exists s1 s2 s12,
+    run_prog I doubleprox_dc_pre doubleprox_dc_body n (mk_hst env_xy [x; y] []) = Some s1
+    /\ (exists x1 y1, deref s1 "caller.x" = Some x1 /\ deref s1 "caller.y" = Some y1
+        /\ run_prog I doubleprox_dc_pre doubleprox_dc_body m (mk_hst env_xy [x1; y1] []) = Some s2)
+    /\ run_prog I doubleprox_dc_pre doubleprox_dc_body (n + m) (mk_hst env_xy [x; y] []) = Some s12
+    /\ deref s2 "caller.x" = deref s12 "caller.x" /\ deref s2 "caller.y" = deref s12 "caller.y".
+Proof. exact gen_dpdc_resume. Qed.
+Print Assumptions gen_doubleprox_dc_resume.
+
+(* generated pdhg with x_relax and y passed by the caller: after niter iterations the
+   caller's three objects hold the model state, the log is the model trace *)
+Theorem gen_pdhg_updates_caller_objects :
+  forall (L Ladj proxp proxd : list R -> list R) (tau sigma theta : R) (m : nat) (junk : string -> list R)
+         (niter : nat) (x xr y : list R),
+  let I := mk_I [("tau", tau); ("sigma", sigma); ("theta", theta)]
+                [("L", L); ("f.proximal(tau)", proxp); ("g.convex_conj.proximal(sigma)", proxd)]
+                [("L.derivative.adjoint", fun _ => Ladj)] [("L.range", vzero m)] junk in
+  let s0 := mk_hst [("x", 0%nat); ("caller.x", 0%nat); ("x_relax", 1%nat); ("caller.x_relax", 1%nat);
+                    ("y", 2%nat); ("caller.y", 2%nat)] [x; xr; y] [] in
+  exists s, run_prog I pdhg_pre pdhg_body niter s0 = Some s
+    /\ let r := iter niter (pdhg_step L Ladj proxp proxd tau sigma theta) (mk_pdhg_st x xr y) in
+       deref s "caller.x" = Some (pd_x r) /\ deref s "caller.x_relax" = Some (pd_xr r)
+       /\ deref s "caller.y" = Some (pd_y r)
+       /\ h_log s = trace pd_x niter (pdhg_step L Ladj proxp proxd tau sigma theta) (mk_pdhg_st x xr y).
+Proof. exact gen_pdhg_caller. Qed.
+Print Assumptions gen_pdhg_updates_caller_objects.
+
+(* hence exact resumption: call with n, call again with k on the same three objects *)
+Theorem gen_pdhg_resume_exact :
+  forall (L Ladj proxp proxd : list R -> list R) (tau sigma theta : R) (m : nat) (junk : string -> list R)
+         (n k : nat) (x xr y : list R),
+  let I := pdhg_I L Ladj proxp proxd tau sigma theta m junk in
+  exists s1 x1 xr1 y1 s2 s12,
+    run_prog I pdhg_pre pdhg_body n (mk_hst env_pdhg_in [x; xr; y] []) = Some s1
+    /\ deref s1 "caller.x" = Some x1 /\ deref s1 "caller.x_relax" = Some xr1 /\ deref s1 "caller.y" = Some y1
+    /\ run_prog I pdhg_pre pdhg_body k (mk_hst env_pdhg_in [x1; xr1; y1] []) = Some s2
+    /\ run_prog I pdhg_pre pdhg_body (n + k) (mk_hst env_pdhg_in [x; xr; y] []) = Some s12
+    /\ deref s2 "caller.x" = deref s12 "caller.x" /\ deref s2 "caller.x_relax" = deref s12 "caller.x_relax"
+    /\ deref s2 "caller.y" = deref s12 "caller.y".
+Proof. exact gen_pdhg_resume. Qed.
+Print Assumptions gen_pdhg_resume_exact.
+
+(* nothing passed: x_relax = x.copy() and y = zero are fresh local objects *)
+Theorem gen_pdhg_defaults_is_model :
+  forall (L Ladj proxp proxd : list R -> list R) (tau sigma theta : R) (m : nat) (junk : string -> list R)
+         (niter : nat) (x : list R),
+  run_prog (pdhg_I L Ladj proxp proxd tau sigma theta m junk) pdhg_pre pdhg_body niter
+           (mk_hst [("x", 0%nat); ("caller.x", 0%nat)] [x] [])
+  = Some (mk_hst env_pdhg_none
+            (pdhg_enc (iter niter (pdhg_full_step L Ladj proxp proxd tau sigma theta)
+                         (pdhg_init m x None None, pdhg_junk junk)))
+            (trace pd_x niter (pdhg_step L Ladj proxp proxd tau sigma theta) (pdhg_init m x None None))).
+Proof. exact gen_pdhg_run_none. Qed.
+Print Assumptions gen_pdhg_defaults_is_model.
+
+Theorem gen_landweber_is_model :
+  forall (A : list R -> list R) (Dadj : list R -> list R -> list R) (proj : list R -> list R) (omega : R)
+         (junk : string -> list R) (niter : nat) (x rhs : list R),
+  let I := mk_I [("omega", omega)] [("op", A); ("projection", proj)] [("op.derivative.adjoint", Dadj)] [] junk in
+  exists s, run_prog I landweber_pre landweber_body niter
+              (mk_hst [("x", 0%nat); ("caller.x", 0%nat); ("rhs", 1%nat)] [x; rhs] []) = Some s
+    /\ deref s "caller.x" = Some (iter niter (landweber_step A Dadj proj rhs omega) x)
+    /\ h_log s = trace (fun x => x) niter (landweber_step A Dadj proj rhs omega) x.
+Proof. exact gen_lw_run. Qed.
+Print Assumptions gen_landweber_is_model.
+
+Theorem gen_proximal_gradient_is_model :
+  forall (proxf gradg : list R -> list R) (gamma : R) (lam : nat -> R) (junk : string -> list R)
+         (niter : nat) (x : list R),
+  let I := fun k => mk_I [("gamma", gamma); ("lam_k", lam k)]
+                         [("f.proximal(gamma)", proxf); ("g.gradient", gradg)] [] [] junk in
+  exists s,
+    obind (option_map canon (exec (I 0%nat) proximal_gradient_pre (mk_hst [("x", 0%nat); ("caller.x", 0%nat)] [x] [])))
+          (iterk_opt niter 0 (fun k => body_step (I k) proximal_gradient_body)) = Some s
+    /\ deref s "caller.x" = Some (iterk niter 0 (pg_step proxf gradg gamma lam) x)
+    /\ h_log s = tracek (fun x => x) niter 0 (pg_step proxf gradg gamma lam) x.
+Proof. exact gen_pg_run. Qed.
+Print Assumptions gen_proximal_gradient_is_model.
+Local Close Scope string_scope.
 
 (* ------------------------------------------------------------ non-vacuity *)
 (* the premise of adupdates_opt_refines_ref is satisfiable: two operators
